@@ -4,4 +4,5 @@ CONSTANTS
   Profiles <- ProfA
 INVARIANT ChainLin
 INVARIANT ChainSq
+INVARIANT TableOK
 CHECK_DEADLOCK FALSE
